@@ -222,3 +222,39 @@ func ruleNoInPlaceSliceReuse(c *Ctx, rule string) {
 		c.undecided(rule, nil, "guarded slice fields", nil, "no load of a guarded slice field found")
 	}
 }
+
+// rulePoolSetsImmutable: the node-subnet set of a configured pool is shared by every request; it is installed by
+// ConfigurePool and afterwards only read — values handed out (FloatingIPInfo.NodeSubnets) are copies.
+func rulePoolSetsImmutable(c *Ctx, rule string) {
+	res := runSharedMapTaint(c, []taintSrc{{Type: "FloatingIPPool", Field: "nodeSubnets", Whole: true}})
+	c.note("%s: %d values may alias a pool's node-subnet set", rule, len(res.vals))
+	if len(res.vals) < 5 {
+		c.undecided(rule, nil, "reads of FloatingIPPool.nodeSubnets", nil, "fewer than 5 values alias the pool's node-subnet set: the rule no longer sees how it is used")
+	}
+	for _, s := range res.sinks {
+		c.ob(rule, s.Parent(), "in-place modification of a set aliasing FloatingIPPool.nodeSubnets", s, false, "a pool's node-subnet set is shared by all requests; modifying a value that may alias it changes routing for every pod until the next ConfigurePool")
+	}
+	if len(res.sinks) == 0 {
+		c.ob(rule, nil, "no write to a set aliasing a pool's node-subnet set", nil, true, "alias taint from FloatingIPPool.nodeSubnets reaches no Insert/Delete/map update")
+	}
+	// the set handed out in FloatingIPInfo is a fresh copy
+	if fn := c.MustFn(rule, fipPkg, "(*crdIpam).toFloatingIPInfo"); fn != nil {
+		n := 0
+		allInstrs(fn, func(in ssa.Instruction) {
+			st, ok := in.(*ssa.Store)
+			if !ok {
+				return
+			}
+			fa, ok := st.Addr.(*ssa.FieldAddr)
+			if !ok || fieldName(fa.X.Type(), fa.Field) != "NodeSubnets" {
+				return
+			}
+			n++
+			_, tainted := res.vals[st.Val]
+			c.ob(rule, fn, "FloatingIPInfo.NodeSubnets is a copy of the pool's set", st, !tainted && isResultOf(st.Val, 0, "sets.NewString"), "sets.NewString(pool.nodeSubnets.UnsortedList()...) — the caller may intersect / extend it freely")
+		})
+		if n == 0 {
+			c.undecided(rule, fn, "NodeSubnets", nil, "no store to FloatingIPInfo.NodeSubnets found")
+		}
+	}
+}
